@@ -21,7 +21,8 @@ ID = "C06"
 TECHNIQUE = "stateless schedule exploration (DFS, prefix replay) over task steps / failures / one cancellation on the real scope + task group; all-done-at-exit and no-waiting-after-failure oracles"
 RULE = (
     "one async scope with up to k spawned tasks from {ret after 0/1/2 pauses, raise after 0/1 "
-    "pauses, spawn a grandchild, spawned via nested sync scope / update}, body in {return, raise, "
+    "pauses, spawn a grandchild, spawned via nested sync scope / update, re-spawn from its "
+    "cancellation handler}, optionally one disposable whose clean-up raises / suspends, body in {return, raise, "
     "externally cancelled at any quiescent point}, with/without an outer scope; all "
     "interleavings; plus spawn outside any scope; non-trivial = at least one spawned task was "
     "still running when the body ended, or a task failed"
@@ -43,15 +44,25 @@ SPAWNS = [
     {"kind": "grand", "pauses": 1},
     {"kind": "ret", "pauses": 1, "via": "sscope"},
     {"kind": "ret", "pauses": 1, "via": "updated"},
+    {"kind": "respawn", "pauses": 1},
+]
+
+# disposables whose clean-up fails or suspends: leaving the block must still wait for / cancel
+# the spawned tasks
+DISPOSABLES = [
+    [],
+    [{"enter": "ok", "exit": "raise", "yields": "none"}],
+    [{"enter": "ok", "exit": "susp_ok", "yields": "none"}],
 ]
 
 
-def _prog(combo, ending, cancels, outer):
+def _prog(combo, ending, cancels, outer, disp=0):
     return {
         "outer": outer,
         "block": {
             "kind": "ascope",
             "supply": ["A"],
+            "disp": [dict(d) for d in DISPOSABLES[disp]],
             "spawns": [dict(SPAWNS[i]) for i in combo],
             "pause": True,
             "ending": ending,
@@ -71,6 +82,9 @@ def programs(tier: str):
                     if outer and (k == kmax or ending == "raise_base"):
                         continue
                     yield _prog(combo, ending, cancels, outer)
+                    if not outer and 1 <= k <= 2:
+                        for d in (1, 2):
+                            yield _prog(combo, ending, cancels, outer, d)
     extra_k = kmax + 1
     pool = [0, 1, 3, 4, 5] if tier == "quick" else [1, 2, 4, 5]
     for combo in itertools.combinations_with_replacement(pool, extra_k):
@@ -131,6 +145,8 @@ def execute(program, ch: Chooser) -> Result:  # noqa: C901, PLR0912
         if r.driver is None or r.driver.done() or r.phase != ["exiting", 0]:
             return
         failed = 0 in r.body_exc
+        if any(d.in_exit for d in r.disp.get(0, [])):
+            return  # the exit is waiting for a disposable's clean-up, not for the tasks (yet)
         if failed and not waited:
             blocked = [s["name"] for s in r.all_spawned if s["task"] is not None and not s["task"].done()]
             if blocked:
